@@ -212,8 +212,24 @@ def _run_real(case, variant, kw=None, public=False):
     return _MEMO[key]
 
 
+_NRUN = [0]
+
+
+def _housekeeping():
+    """every new closure is a new XLA compilation: drop the compilation caches regularly (JIT code memory is finite)"""
+    _NRUN[0] += 1
+    if _NRUN[0] % 40 == 0:
+        try:
+            _jax()["jax"].clear_caches()
+            import gc
+            gc.collect()
+        except Exception:
+            pass
+
+
 def _run_real_(case, variant, kw=None, public=False):
     """-> {"x": [floats], "info": int, "nit": int} | {"error": kind}"""
+    _housekeeping()
     J = _jax()
     cgm, jft = J["cgm"], J["jft"]
     kw = dict(_cfg_kwargs(case) if kw is None else kw)
